@@ -482,7 +482,7 @@ def main():
                        "listing queries (get_roles / get_users ...) are not observed there - such a manager's listings depend on which "
                        "names it was asked about earlier, reload or not"]
     chk.trusted = ["hand-written models coq/theories/{Policy,RoleGraph,Mgmt}.v tied by the differential history correspondence"]
-    chk.build(oracle_name="Mgmt")
+    chk.build(translators=["loadpolicy", "rolelinks"], oracle_name="Mgmt")
     if chk.replay_file:
         import json
         c = (json.load(open(chk.replay_file)).get("case") or {})
